@@ -344,11 +344,17 @@ structure TCfg where
   sharp : Bool
   guarded : Bool        -- the after-run idle loop also tests `not stopper.is_set()`: true for the current tree
                         -- (since /repo 6ccf081); false only describes the code before that repair
+  yielding : Bool       -- every iteration of the main loop starts with `await asyncio.sleep(0)`: true for the
+                        -- current tree (since /repo b04c26c); false only describes the code before that repair
   deriving DecidableEq, Repr
 
 /-- The variant of the tree under test: the loop is `while memory.idle_reset_time <= started and not
     stopper.is_set()`. Tied to the AST on every run (Tie/C09.lean: `timer_loop_guarded`). -/
 def treeGuarded : Bool := true
+
+/-- The variant of the tree under test: the retry loops of `_timer` and `_daemon` yield to the event loop on
+    every iteration. Tied to the AST on every run (Tie/C09.lean: `loops_yield_each_iteration`). -/
+def treeYielding : Bool := true
 
 /-- Everything another task could change; frozen while `_timer` runs without suspending. -/
 structure TEnv where
@@ -389,9 +395,9 @@ structure Outcome where
   yields : Bool
   deriving DecidableEq, Repr
 
-/-- The exact guard of `progress`: a run that does not yield and is to be retried must be retried
-    after a positive delay (`TemporaryError(delay>0)`, `backoff>0`); in kopf terms the only way to
-    violate it is delay `0`/`None` (delays are clamped at 0). -/
+/-- HISTORICAL (the code before /repo b04c26c, `yielding = false`): the guard outside which the retry loop
+    never suspended — a run that does not yield and is to be retried must be retried after a positive
+    delay. The current tree needs no such guard (`progress`). -/
 def Outcome.good (o : Outcome) : Bool := o.yields || o.done || decide (0 < o.errDelay)
 
 inductive TRes where
@@ -418,9 +424,9 @@ def tstep (c : TCfg) (e : TEnv) (os : Nat → Outcome) (l : TLoc) : TRes :=
     else
       -- `if state.done and not state.counts.failure: state = from_scratch()`: a failed series stays done
       let l := if l.done && !l.failed then { l with done := false } else l
-      match c.idle with
-      | some _ => .cont { l with pc := .idleHead }
-      | none => .cont { l with pc := .invoke }
+      let l := { l with pc := (match c.idle with | some _ => PC.idleHead | none => PC.invoke) }
+      -- `await asyncio.sleep(0)` at the top of the loop body (since b04c26c): a suspension point
+      if c.yielding then .susp l else .cont l
   | .idleHead =>
     match c.idle with
     | some idle =>
@@ -498,13 +504,16 @@ inductive DRes where
 def dsleepTo (delay : Tick) (e : TEnv) (l : DLoc) : DRes :=
   if sleepSuspends delay e then .susp l else .cont l
 
-def dstep (initialDelay : Option Tick) (e : TEnv) (os : Nat → Outcome) (l : DLoc) : DRes :=
+def dstep (initialDelay : Option Tick) (yielding : Bool) (e : TEnv) (os : Nat → Outcome) (l : DLoc) : DRes :=
   match l.pc with
   | .init =>
     match initialDelay with
     | some d => dsleepTo d e { l with pc := .head }
     | none => .cont { l with pc := .head }
-  | .head => if e.stop || l.done then .exit else .cont { l with pc := .invoke }
+  | .head =>
+    if e.stop || l.done then .exit
+    else if yielding then .susp { l with pc := .invoke }     -- `await asyncio.sleep(0)` (since b04c26c)
+    else .cont { l with pc := .invoke }
   | .invoke =>
     let o := os l.runs
     let l' := { l with pc := .post, done := o.done, delay := o.errDelay, runs := l.runs + 1 }
@@ -513,13 +522,13 @@ def dstep (initialDelay : Option Tick) (e : TEnv) (os : Nat → Outcome) (l : DL
     if l.delay ≠ 0 then dsleepTo l.delay e { l with pc := .head }     -- `if state.delay:`
     else .cont { l with pc := .head }
 
-def dsettles (initialDelay : Option Tick) (e : TEnv) (os : Nat → Outcome) : Nat → DLoc → Bool
+def dsettles (initialDelay : Option Tick) (yielding : Bool) (e : TEnv) (os : Nat → Outcome) : Nat → DLoc → Bool
   | 0, _ => false
   | k + 1, l =>
-    match dstep initialDelay e os l with
+    match dstep initialDelay yielding e os l with
     | .susp _ => true
     | .exit => true
-    | .cont l' => dsettles initialDelay e os k l'
+    | .cont l' => dsettles initialDelay yielding e os k l'
 
 /-! ### Statement vocabulary of the property theorems -/
 
